@@ -101,7 +101,14 @@ def run_model_group(g, tier, seed):
         r = vlib.tlc(module, cfg_text, f"{g['name']}_{name}", workers=8 if tier == "quick" else 14, timeout=3000)
         if r.get("error"):
             out.setdefault("model_invariant_failures", []).append(dict(cfg=name, error=r["error"]))
-        total = sum(1 for _ in vlib.prints(r["out"], "REPLAY"))
+        # one cheap pass over the raw output to count, one to select; only selected lines are parsed
+        total = nbad_total = 0
+        with open(r["out"], errors="replace") as f:
+            for line in f:
+                if line.startswith('<<"REPLAY"'):
+                    total += 1
+                    if not line.startswith('<<"REPLAY", "none"'):
+                        nbad_total += 1
         frac = min(1.0, cquota / max(total, 1))
         kept = nbad = 0
         runs = []
@@ -109,22 +116,32 @@ def run_model_group(g, tier, seed):
         if "select" in g:
             # the group picks the behaviours to replay itself (e.g. de-duplication, priorities)
             chosen = g["select"](name, [h for _, h in vlib.prints(r["out"], "REPLAY")], tier, seed, cquota)
-        for bad, hist in vlib.prints(r["out"], "REPLAY"):
-            is_bad = bad != "none"
-            nbad += is_bad
-            if chosen is not None:
-                if hist not in chosen:
+        with open(r["out"], errors="replace") as f:
+            for line in f:
+                if not line.startswith('<<"REPLAY"'):
                     continue
-                chosen.discard(hist)
-            elif not (is_bad and nbad <= 40) and not pick(hist, seed, frac):
-                continue
-            tokens = json.loads(hist)
-            for var in variants:
-                cfg, cmds = decode(tokens, var)
-                if cfg is None:
+                is_bad = not line.startswith('<<"REPLAY", "none"')
+                nbad += is_bad
+                if chosen is None and not (is_bad and nbad <= 40) and not pick(line, seed, frac):
                     continue
-                runs.append(dict(cfg=cfg, cmds=cmds, model_bad=bad, src=name, tokens=tokens, variant=var))
-            kept += 1
+                m = vlib.PRINT_RE.match(line)
+                if not m:
+                    continue
+                try:
+                    bad, hist = json.loads("[" + m.group(2) + "]")
+                except json.JSONDecodeError:
+                    continue
+                if chosen is not None:
+                    if hist not in chosen:
+                        continue
+                    chosen.discard(hist)
+                tokens = json.loads(hist)
+                for var in variants:
+                    cfg, cmds = decode(tokens, var)
+                    if cfg is None:
+                        continue
+                    runs.append(dict(cfg=cfg, cmds=cmds, model_bad=bad, src=name, tokens=tokens, variant=var))
+                kept += 1
         out["tlc"].append(dict(cfg=name, generated=r["generated"], distinct=r["distinct"], wall=r["wall"],
                                cached=r["cached"], transitions=total, replayed=kept, model_bad_lines=nbad))
         run_batch(g, tier, name, runs, out, acc, cfg_text, decode, module)
@@ -218,6 +235,12 @@ def report(prop, g, tier, seed, res, wall):
         group_wall=res.get("group_wall"),
     )
     vlib.write_evidence(prop, tier, seed, g["level"].get(prop, "model_checking"), cov, wall, len(new), g["assumptions"])
+    for f in res.get("model_invariant_failures", []):
+        # a structural invariant of the MODEL failed (TypeOk, WindowInv, ...): TLC stopped exploring that
+        # configuration early, so its coverage is not what the evidence would suggest - a tool error
+        print(f"TOOL-ERROR model invariant failed in configuration {f['cfg']}: {f['error']}", file=sys.stderr)
+    if res.get("model_invariant_failures"):
+        return 2
     if new:
         seen = set()
         for v in new:
